@@ -248,6 +248,7 @@ type scen struct {
 
 var sweeps []scen
 var scenIdx int
+var faultN int
 
 // rel strips the (random) root of the temporary tree from a path or label,
 // so that the case lines depend on the seed only.
@@ -287,6 +288,9 @@ func pickScen() scen {
 }
 
 func pickScen1() scen {
+	if tag == "c05" {
+		return scen{kind: "fault", nthreads: 1, policy: "seq", outcomes: "all200"}
+	}
 	if tag == "c07" && rnd.Chance(4) {
 		return scen{kind: "race3", nthreads: 3, policy: "directed", outcomes: "all200", directed: "race3"}
 	}
@@ -758,6 +762,19 @@ func scenario() {
 			}
 		}
 	}
+	if tag == "c05" {
+		head := []string{HS(rel(w.local + string(filepath.Separator))), I(int64(len(allowed)))}
+		for _, a := range allowed {
+			head = append(head, I(a))
+		}
+		head = append(head, I(int64(len(init0))))
+		head = append(head, init0...)
+		head = append(head, B(upPresent), I(int64(len(initUp))))
+		head = append(head, initUp...)
+		head = append(head, I(starts[0].Unix()), I(int64(starts[0].Nanosecond())), B(modeOn), B(!asof.IsZero()), I(asof.Unix()))
+		faultCases(faultN, w, dir, cfg, starts[0], modeOn, asof, head)
+		return
+	}
 	// ---- threads ----
 	url := "http://verif.invalid/upload"
 	s := vsched.New(false)
@@ -1025,6 +1042,14 @@ func main() {
 		panic(err)
 	}
 	defer os.RemoveAll(root)
+	if tag == "c05" {
+		faultN = n
+		for casesDone < n {
+			scenario()
+		}
+		out.Close()
+		return
+	}
 	for i := 0; i < n; i++ {
 		scenario()
 	}
